@@ -1,11 +1,14 @@
 import AdaptiveProofs.Lemmas.L1DInv
 import AdaptiveProofs.Lemmas.SeqInv
 import AdaptiveModel.Avg
+import AdaptiveProofs.Lemmas.L1DBook
+import AdaptiveProofs.Lemmas.AvgBook
+import AdaptiveProofs.Lemmas.SeqBook
 
 /-!
 # C10 — telling is faithful bookkeeping: data, pending set and re-tells
 
-Property theorems per learner model (first instalment; `Lemmas/L1DBook.lean`, `AvgBook.lean` extend it).
+Property theorems per learner model (helper lemmas: `Lemmas/L1DBook.lean`, `AvgBook.lean`, `SeqBook.lean`).
 -/
 namespace C10
 
@@ -66,5 +69,79 @@ theorem avg_retell_noop (s : Avg.State α) (k : Nat) (v : α) (h : Avg.hasKey k 
 theorem avg_removeUnfinished_spec (s : Avg.State α) :
     (Avg.removeUnfinished s).pending = [] ∧ (Avg.removeUnfinished s).data = s.data := ⟨rfl, rfl⟩
 end avg
+
+/-! ### data = what was told, for EVERY op list (both `tell_many` paths included) -/
+section full
+open L1D in
+/-- Learner1D: `data[x]` is the value told FIRST for `x`; the number of points is the number of distinct
+told abscissae. -/
+theorem l1d_data_is_first_told {α : Type} [Field α] [LinearOrder α] [IsStrictOrderedRing α]
+    (lossFn : List (Option α) → List (Option (List α)) → Loss α) (r12 : α → α)
+    (lo hi factor dxEps : α) (nn : Nat) (ops : List (Op α)) :
+    (∀ x, dataGet (run lossFn r12 (init lo hi factor dxEps nn) ops).data x = firstTold ops x) ∧
+    (run lossFn r12 (init lo hi factor dxEps nn) ops).data.length = (toldKeys ops).dedup.length :=
+  ⟨fun x => data_is_first_told lossFn r12 lo hi factor dxEps nn ops x,
+   data_length_eq_distinct_told lossFn r12 lo hi factor dxEps nn ops⟩
+
+open L1D in
+/-- Learner1D: a point that has a value is never pending again, whatever happens later. -/
+theorem l1d_told_never_pending {α : Type} [Field α] [LinearOrder α] [IsStrictOrderedRing α]
+    (lossFn : List (Option α) → List (Option (List α)) → Loss α) (r12 : α → α)
+    (lo hi factor dxEps : α) (nn : Nat) (ops ops' : List (Op α)) (x : α)
+    (h : hasData (run lossFn r12 (init lo hi factor dxEps nn) ops) x = true) :
+    let s := run lossFn r12 (run lossFn r12 (init lo hi factor dxEps nn) ops) ops'
+    hasData s x = true ∧ x ∉ s.pending :=
+  told_never_pending lossFn r12 (inv_run lossFn r12 lo hi factor dxEps nn ops) h ops'
+
+open L1D in
+/-- Learner1D: every point handed out by a committing ask (in a state reached by a valid history) is
+pending afterwards and stays pending until it is told or unfinished points are discarded. -/
+theorem l1d_asked_pending_until_told {α : Type} [Field α] [LinearOrder α] [IsStrictOrderedRing α]
+    (lossFn : List (Option α) → List (Option (List α)) → Loss α) (r12 : α → α) {lo hi : α} (hlt : lo < hi)
+    (factor dxEps : α) (nn : Nat) (ops : List (Op α))
+    (hv : ValidOps lossFn r12 (init lo hi factor dxEps nn) ops) (n : Nat) :
+    let s := run lossFn r12 (init lo hi factor dxEps nn) ops
+    ∀ x ∈ (ask lossFn r12 s n true).1.1,
+      x ∈ (ask lossFn r12 s n true).2.pending ∧
+      ∀ ops', (∀ op ∈ ops', KeepsPending x op) → x ∈ (run lossFn r12 (ask lossFn r12 s n true).2 ops').pending :=
+  ask_commit_marks_pending_run lossFn r12 hlt factor dxEps nn ops hv n
+
+/-- AverageLearner: `data[seed]` is the value told first; `npoints` is the number of distinct told seeds. -/
+theorem avg_data_is_first_told {α : Type} [Field α] [LinearOrder α] [IsStrictOrderedRing α]
+    (atol rtol : Option α) (m : Nat) (ops : List (Avg.Op α)) :
+    (∀ k, Avg.dataGet (Avg.run (Avg.init atol rtol m) ops).data k = Avg.firstTold ops k) ∧
+    (Avg.run (Avg.init atol rtol m) ops).npoints = (Avg.toldSeeds ops).dedup.length :=
+  ⟨fun k => Avg.data_is_first_told atol rtol m ops k,
+   (Avg.npoints_eq_distinct_told atol rtol m ops).1.trans (Avg.npoints_eq_distinct_told atol rtol m ops).2⟩
+
+/-- AverageLearner: along histories that never mark an already told seed pending, no told seed is pending.
+(For a told seed that IS marked pending again the code keeps it pending after a re-tell — the model has the
+same behaviour; recorded finding `C10.retold_point_still_pending:AverageLearner`.) -/
+theorem avg_told_not_pending_partial {α : Type} [Field α] [LinearOrder α] [IsStrictOrderedRing α]
+    (atol rtol : Option α) (m : Nat) (ops : List (Avg.Op α)) (hv : Avg.ValidOps (Avg.init atol rtol m) ops) :
+    let s := Avg.run (Avg.init atol rtol m) ops
+    (∀ k ∈ s.pending, Avg.hasKey k s.data = false) ∧ ∀ k, Avg.hasKey k s.data = true → k ∉ s.pending :=
+  Avg.told_not_pending_run atol rtol m ops hv
+
+/-- AverageLearner: discarding empties the pending set and equalises the two losses. -/
+theorem avg_removeUnfinished_losses {α : Type} [Field α] [LinearOrder α] [IsStrictOrderedRing α]
+    (sqrt : α → α) (s : Avg.State α) :
+    (Avg.removeUnfinished s).pending = [] ∧
+    Avg.loss sqrt (Avg.removeUnfinished s) false = Avg.loss sqrt (Avg.removeUnfinished s) true :=
+  ⟨(Avg.removeUnfinished_spec sqrt s).1, (Avg.removeUnfinished_spec sqrt s).2.1⟩
+
+/-- SequenceLearner: `data[i]` is the value told LAST for index `i` (every op list); `npoints` is the number of
+distinct told indices; committed indices are pending until told or discarded. -/
+theorem seq_data_is_last_told {β : Type} (n : Nat) (ops : List (Seq.Op β)) :
+    (∀ i, Seq.lookup i (Seq.run (Seq.init n) ops).data = Seq.lastTold ops i) ∧
+    Seq.npoints (Seq.run (Seq.init n) ops) = (Seq.toldIdx ops).dedup.length :=
+  ⟨fun i => Seq.data_is_last_told' n ops i, Seq.npoints_eq_distinct_told n ops⟩
+
+theorem seq_asked_pending_until_told {β : Type} (s : Seq.State β) (n i : Nat)
+    (h : i ∈ (Seq.ask s n true).1) :
+    i ∈ (Seq.ask s n true).2.pending ∧
+    ∀ ops, (∀ op ∈ ops, Seq.KeepsPending i op) → i ∈ (Seq.run (Seq.ask s n true).2 ops).pending :=
+  Seq.ask_commit_marks_pending s n i h
+end full
 
 end C10
